@@ -370,9 +370,11 @@ inline void m05(const Edge& e, const Parsed& P) {
 		const uint8_t pre = up ? M_PRE_UPDATE : M_PRE_REACT, mid = up ? M_UPDATE : M_REACT, post = up ? M_POST_UPDATE : M_POST_REACT;
 		uint8_t wantS[6], wantM[6]; int n = 0;
 		// (a state that does not define the callback itself contributes no delivery of its own; its injections are judged below)
-		if (VX_HEAD) { wantS[n] = ROOT; wantM[n++] = pre; } if (own_defined(A, pre)) { wantS[n] = A; wantM[n++] = pre; }
-		if (VX_HEAD) { wantS[n] = ROOT; wantM[n++] = mid; } if (own_defined(A, mid)) { wantS[n] = A; wantM[n++] = mid; }
-		if (own_defined(A, post)) { wantS[n] = A; wantM[n++] = post; } if (VX_HEAD) { wantS[n] = ROOT; wantM[n++] = post; }
+		const bool evb = !up && e.op.a != 0;                            // the second event type: only the head and the states that handle it are reached
+		const bool ownA = evb ? own_defined_evb(A) : true;
+		if (VX_HEAD) { wantS[n] = ROOT; wantM[n++] = pre; } if (ownA && own_defined(A, pre)) { wantS[n] = A; wantM[n++] = pre; }
+		if (VX_HEAD) { wantS[n] = ROOT; wantM[n++] = mid; } if (ownA && own_defined(A, mid)) { wantS[n] = A; wantM[n++] = mid; }
+		if (ownA && own_defined(A, post)) { wantS[n] = A; wantM[n++] = post; } if (VX_HEAD) { wantS[n] = ROOT; wantM[n++] = post; }
 		if (P.nphase != n) flag(C05, "phase-count", e, "%d phase callbacks, expected %d", P.nphase, n);
 		for (int i = 0; i < P.nphase && i < n; ++i) {
 			const Ev& v = e.tr[P.phase_ev[i]];
